@@ -110,7 +110,7 @@ func cmdVerify(args []string) {
 	bad := 0
 	sort.SliceStable(obls, func(i, j int) bool { return obls[i].Fn < obls[j].Fn })
 	for i, o := range obls {
-		ok := o.Result == o.Expect || (o.Kind == "vacuity" && o.Result != "unsat")
+		ok := o.Result == o.Expect || (o.Kind == "vacuity" && o.Result != "unsat") || o.Kind == "cover"
 		if !ok {
 			bad++
 		}
